@@ -72,7 +72,8 @@ struct Add {
 }
 
 fn store_adds(r: &mut StdRng, apex: &str, class_v: u16) -> Vec<Add> {
-    let labels = ["a", "b", "*", "ns", "mx", "del", "sib", "zq", "a-z_0", "*x", "**"];
+    // (caf\233: a letter next to an octet that is not ASCII - case folding applies to the letters all the same)
+    let labels = ["a", "b", "*", "ns", "mx", "del", "sib", "zq", "a-z_0", "*x", "**", "caf\\233", "d\\233l"];
     let mut owners: Vec<String> = vec![apex.to_string()];
     for _ in 0..r.gen_range(3..10) {
         let mut s = String::new();
@@ -121,6 +122,16 @@ fn store_adds(r: &mut StdRng, apex: &str, class_v: u16) -> Vec<Add> {
             for x in [1u32, 2, 3, 4, r.gen_range(0..3)] { v.extend_from_slice(&x.to_be_bytes()); }
             (6, v)
         } else if k < 35 {
+            // now and then preceded by the same name with an octet of junk after it (malformed RDATA the API accepts):
+            // a different record, compared octet by octet, whichever of the two comes first
+            if r.gen_bool(0.04) {
+                let mut junk = w(&target); junk.push(r.gen_range(0..2));
+                let first_junk = r.gen_bool(0.6);
+                let o2 = owner.clone();
+                let cls2: u16 = class_v;
+                if first_junk { adds.push(Add { owner: o2, ty: 2, class: cls2, ttl: 60, rdata: junk }); }
+                else { adds.push(Add { owner: o2.clone(), ty: 2, class: cls2, ttl: 60, rdata: w(&rand_case(r, &target)) }); adds.push(Add { owner: o2, ty: 2, class: cls2, ttl: 60, rdata: junk }); }
+            }
             (2, w(&target))
         } else if k < 50 {
             (1, if class_v == 3 { let mut v = w("ch."); v.extend_from_slice(&[0, r.gen_range(1..3)]); v } else { vec![10, 0, 0, r.gen_range(1..4)] })
@@ -216,7 +227,7 @@ fn store(r: &mut StdRng, n: usize, out: &mut Out) {
 /// Small-alphabet zone as in the property text: '*' labels, NS at various depths, CNAMEs, empty non-terminals.
 fn small_zone(r: &mut StdRng, apex: &str, class: u16) -> Vec<Add> {
     // a label of 16+ octets (block-wise hashing / comparison code paths) besides the short ones
-    let labels = ["a", "b", "*", "c", "a", "b", "*", "c", "a-label-of-more-than-sixteen-octets"];
+    let labels = ["a", "b", "*", "c", "a", "b", "*", "c", "a-label-of-more-than-sixteen-octets", "caf\\233"];
     let mut adds = Vec::new();
     let n = r.gen_range(0..40);
     for _ in 0..n {
@@ -254,7 +265,7 @@ fn small_zone(r: &mut StdRng, apex: &str, class: u16) -> Vec<Add> {
 }
 
 fn nearby(names: &[String], apex: &str) -> Vec<String> {
-    let labels = ["a", "b", "*", "c", "zz", "a-label-of-more-than-sixteen-octets"];
+    let labels = ["a", "b", "*", "c", "zz", "a-label-of-more-than-sixteen-octets", "caf\\233"];
     let mut q: Vec<String> = Vec::new();
     let mut base: Vec<String> = names.to_vec();
     base.push(apex.to_string());
